@@ -425,7 +425,6 @@ func structOf(t types.Type) *types.Struct {
 	return s
 }
 
-
 // zeroValueObserved: from the declaration `var v T` some path reaches a read of v without passing an assignment to v.
 func zeroValueObserved(f *Func, spec *ast.ValueSpec, obj types.Object) bool {
 	body := f.EnclosingBody(spec)
